@@ -9,6 +9,20 @@ from .base import HarnessError, run_seed
 from . import runner
 
 
+def _safe_print(*args, **kw):
+    """The simulator's own output never fails on a stream that only takes ASCII (interpreter flag 'A')."""
+    import builtins
+    import sys as _sys
+    enc = (getattr(kw.get('file') or _sys.stdout, 'encoding', None) or 'utf-8').lower()
+    if enc.replace('-', '').replace('_', '') in ('ascii', 'usascii', 'ansix3.41968', '646'):
+        args = [str(a).encode('ascii', 'backslashreplace').decode('ascii') for a in args]
+    builtins.print(*args, **kw)
+
+
+print = _safe_print
+
+
+
 def claimed():
     ids = []
     for p in sorted(glob.glob(os.path.join(runner.VERIF, 'sim', 'props', 'c[0-9]*.py'))):
